@@ -468,26 +468,26 @@ theorem reset_clears_control (m : Machine σ) (x : Ext σ) (endT : Option Nat) (
 
 /-- **the state after `reset()` is the initial state of the same pre-run schedule**, creation indices
     shifted by a constant (the events are re-created, in the original order); clock and counters
-    are back at zero; entity state is whatever it was -/
+    are back at the start clock and zero; entity state is whatever it was -/
 theorem reset_state_is_init (m : Machine σ) (x : Ext σ) (endT : Option Nat) (fuel : Nat) (z : Sess σ) :
     (Sess.apply m x endT fuel z .reset).s =
-      renSt (· + z.s.nextId) id (z.s.nextId + z.pre.length) (init (x.reseat z.s.ent z.pre.length) 0 z.pre) := by
+      renSt (· + z.s.nextId) id (z.s.nextId + z.pre.length) (init (x.reseat z.s.ent z.pre.length) z.start z.pre) := by
   simp only [Sess.apply]
-  exact reset_is_init _ _ _
+  exact reset_is_init _ _ _ _
 
 /-- **reset() + run() repeats the original run** for models that do not compute with creation
     indices (C03 `IdOblivious`) and whose entity state is back at its initial value `ent0`
     ("stateless"): same observable delivery sequence (time, target, type, payload, tag), same clock,
     same number of processed events, after any number of loop iterations -/
-theorem reset_replays (mc : Machine σ) (ho : IdOblivious mc) (base : Nat) (ent0 : σ) (pre : List Spec)
+theorem reset_replays (mc : Machine σ) (ho : IdOblivious mc) (base start : Nat) (ent0 : σ) (pre : List Spec)
     (endT : Option Nat) (n : Nat) :
-    (run mc endT n (resetSt base ent0 pre)).log.map obs = (run mc endT n (init ent0 0 pre)).log.map obs ∧
-    (run mc endT n (resetSt base ent0 pre)).now = (run mc endT n (init ent0 0 pre)).now ∧
-    (run mc endT n (resetSt base ent0 pre)).processed = (run mc endT n (init ent0 0 pre)).processed := by
+    (run mc endT n (resetSt base start ent0 pre)).log.map obs = (run mc endT n (init ent0 start pre)).log.map obs ∧
+    (run mc endT n (resetSt base start ent0 pre)).now = (run mc endT n (init ent0 start pre)).now ∧
+    (run mc endT n (resetSt base start ent0 pre)).processed = (run mc endT n (init ent0 start pre)).processed := by
   rw [reset_is_init]
   have h := run_index_shift mc (· + base) id (by intro a b hab; show a + base < b + base; omega)
-    (ho.equivariant _) endT n (init ent0 0 pre) (base + pre.length)
-    (by intro j; show (init ent0 0 pre).nextId + j + base = base + pre.length + j; simp [init]; omega)
+    (ho.equivariant _) endT n (init ent0 start pre) (base + pre.length)
+    (by intro j; show (init ent0 start pre).nextId + j + base = base + pre.length + j; simp [init]; omega)
   refine ⟨?_, h.2.1, h.2.2.1⟩
   rw [h.1]
   simp [List.map_map, Function.comp_def, obs_ren]
@@ -518,7 +518,7 @@ theorem session_inv (m : Machine σ) (x : Ext σ) (endT : Option Nat) (fuel : Na
     | clear => exact inv
     | pauseAt k => exact inv
     | bpAt k b => exact inv
-    | reset => simp only [Sess.apply]; exact reset_inv _ _ _
+    | reset => simp only [Sess.apply]; exact reset_inv _ _ _ _
     | sched sp rel =>
       simp only [Sess.apply]
       split
